@@ -90,13 +90,14 @@ const (
 	siteSetter
 	siteUnpackTag
 	siteRefOperator // the key as the name of ${key:default}, ${key:+alt} and of a computed reference ${${k}}
-	siteSetterIdx   // the number as idx argument of a setter on a list that has entries already
+	siteSetterIdx   // the number as idx argument of a setter on a list that has entries already / does not exist yet
 	siteCrossOpts   // written under one set of index options, read under another: the reading call's options decide
+	siteNameWithIdx // the key as name argument together with an index argument (name, 1)
 	numC20Sites
 )
 
 func (s c20Site) String() string {
-	return [...]string{"single map key", "last segment of a dotted key", "first segment of a dotted key", "middle segment of a dotted key", "struct tag", "name argument of SetString/String/Has/Remove", "struct tag of an Unpack target", "name in ${key:d}, ${key:+a} and ${${k}}", "idx argument of a setter on a non-empty list", "key written under other index options than it is read with"}[s]
+	return [...]string{"single map key", "last segment of a dotted key", "first segment of a dotted key", "middle segment of a dotted key", "struct tag", "name argument of SetString/String/Has/Remove", "struct tag of an Unpack target", "name in ${key:d}, ${key:+a} and ${${k}}", "idx argument of a setter on a non-empty list", "key written under other index options than it is read with", "name argument next to an index argument of SetString/String/Has"}[s]
 }
 
 func c20Space(name string, strs []string) *core.Space {
@@ -122,7 +123,7 @@ func c20Space(name string, strs []string) *core.Space {
 			if (site == siteStructTag || site == siteUnpackTag) && (strings.ContainsAny(s, ",\"`") || s == "") {
 				return core.Result{Skipped: true}
 			}
-			if site == siteRefOperator || site == siteSetterIdx || site == siteCrossOpts {
+			if site == siteRefOperator || site == siteSetterIdx || site == siteCrossOpts || site == siteNameWithIdx {
 				return c20ExtraSite(site, s, maxIdx, numKeys)
 			}
 			// oracle
@@ -291,6 +292,45 @@ func c20ExtraSite(site c20Site, s string, maxIdx int64, numKeys bool) core.Resul
 			}
 			res.Nontrivial = perr == nil
 			res.Outcome = "reference"
+		case siteNameWithIdx:
+			// SetString(key, 1, "w"): the index argument does not change what the name is - an
+			// index (the root becomes a list of key+1 entries whose last one is a list) or a
+			// name (a named list of two entries)
+			if s == "" || strings.Contains(s, ".") {
+				res.Skipped = true
+				return
+			}
+			if maxIdx < 1 {
+				res.Skipped = true // (the index argument 1 itself is out of range)
+				return
+			}
+			isIndex := !numKeys && perr == nil && v >= 0 && v <= maxIdx
+			cfg := ucfg.New()
+			if err := cfg.SetString(s, 1, "w", opts...); err != nil {
+				res = core.Fail("c20", fmt.Sprintf("NAME-WITH-IDX rejected numkeys=%v %s", numKeys, keyClass(s, perr, v, maxIdx)), fmt.Sprintf("SetString(%q, 1): %v", s, firstLine(err.Error())))
+				return
+			}
+			n, _ := cfg.CountField("")
+			if isIndex {
+				if !cfg.IsArray() || cfg.IsDict() || int64(n) != v+1 {
+					res = core.Fail("c20", fmt.Sprintf("NAME-WITH-IDX index-expected numkeys=%v %s", numKeys, keyClass(s, perr, v, maxIdx)), fmt.Sprintf("SetString(%q, 1): expected a root list of %d entries, got array=%v dict=%v entries=%d fields=%v", s, v+1, cfg.IsArray(), cfg.IsDict(), n, cfg.GetFields()))
+					return
+				}
+			} else {
+				f := cfg.GetFields()
+				got, gerr := cfg.String(s, 1, opts...)
+				has, _ := cfg.Has(s, 1, opts...)
+				if cfg.IsArray() || len(f) != 1 || f[0] != s || gerr != nil || got != "w" || !has {
+					res = core.Fail("c20", fmt.Sprintf("NAME-WITH-IDX name-expected numkeys=%v %s", numKeys, keyClass(s, perr, v, maxIdx)), fmt.Sprintf("SetString(%q, 1): expected a list named %q, got array=%v fields=%v; String(%q, 1)=(%q,%v) Has=%v", s, s, cfg.IsArray(), f, s, got, gerr, has))
+					return
+				}
+			}
+			if m := c20MaxList(cfg); int64(m) > maxIdx+1 {
+				res = core.Fail("c20", "LIST-EXCEEDS-MAXIDX name with idx", fmt.Sprintf("a list of %d entries with MaxIdx %d", m, maxIdx))
+				return
+			}
+			res.Nontrivial = perr == nil
+			res.Outcome = "name-with-idx"
 		case siteCrossOpts:
 			// the config holds the key as a NAME (written with numeric keys enabled) and a list
 			// entry written under the reading options; every reader decides by its own options
@@ -362,14 +402,18 @@ func c20ExtraSite(site c20Site, s string, maxIdx int64, numKeys bool) core.Resul
 			if err != nil {
 				panic("harness: " + err.Error())
 			}
-			for _, target := range []string{"a", "d.l"} {
+			full := have
+			// (also lists that do not exist yet: below the top level, below an object, below a missing path)
+			for _, target := range []string{"a", "d.l", "n", "d.n", "m.q"} {
+				have := full
+				if target != "a" && target != "d.l" {
+					have = 0
+				}
 				o := append([]ucfg.Option{ucfg.PathSep(".")}, opts...)
 				serr := cfg.SetString(target, int(v), "w", o...)
-				n := -1
-				if target == "a" {
-					n, _ = cfg.CountField("a")
-				} else if d, err := cfg.Child("d", -1); err == nil {
-					n, _ = d.CountField("l")
+				n, cerr := cfg.CountField(target, ucfg.PathSep("."))
+				if cerr != nil {
+					n = 0
 				}
 				if v <= maxIdx {
 					want := have
@@ -385,7 +429,7 @@ func c20ExtraSite(site c20Site, s string, maxIdx int64, numKeys bool) core.Resul
 					return
 				}
 			}
-			if n := c20MaxList(cfg); int64(n) > maxIdx+1 && int64(n) > have {
+			if n := c20MaxList(cfg); int64(n) > maxIdx+1 && int64(n) > full {
 				res = core.Fail("c20", "LIST-EXCEEDS-MAXIDX setter idx", fmt.Sprintf("a list of %d entries with MaxIdx %d", n, maxIdx))
 				return
 			}
